@@ -220,11 +220,12 @@ def gen_big_file(rng):
         for c in chains:
             s = getattr(c, side)
             need[s.name] = max(need.get(s.name, 0), s.end)
+        size = {}
+        for n, v in need.items():
+            size[n] = U64 if rng.random() < 0.3 else min(U64, v + (0 if rng.random() < 0.5 else rng.randint(0, 100)))
         for c in chains:
             s = getattr(c, side)
-            s.size = min(U64, need[s.name] + (0 if rng.random() < 0.5 else rng.randint(0, 100)))
-            if rng.random() < 0.3:
-                s.size = U64
+            s.size = size[s.name]
     return chains
 
 
@@ -300,4 +301,87 @@ def chunkings(rng, data, k=3):
                 ev.append(("c", data[prev:c]))
                 prev = c
         out.append(ev)
+    return out
+
+
+# ------------------------------------------------------------------------------------------
+# JSON-able cases
+# ------------------------------------------------------------------------------------------
+
+def chain_to_dict(c):
+    return {"score": c.score, "id": c.cid,
+            "ref": [c.ref.name, c.ref.size, c.ref.strand, c.ref.start, c.ref.end],
+            "qry": [c.qry.name, c.qry.size, c.qry.strand, c.qry.start, c.qry.end],
+            "blocks": [list(b) for b in c.blocks]}
+
+
+def chain_from_dict(d):
+    return Chain(d["score"], Side(*d["ref"]), Side(*d["qry"]), d["id"], [tuple(b) for b in d["blocks"]])
+
+
+def style_to_dict(st, rng=None):
+    d = dict(st)
+    d["num"] = NUM_STYLES.index(st["num"]) if st["num"] in NUM_STYLES else 0
+    return d
+
+
+def style_from_dict(d):
+    st = dict(d)
+    st["num"] = NUM_STYLES[d.get("num", 0)]
+    return st
+
+
+PLAIN = {"eol": "\n", "final_newline": True, "blank_between": 1, "blank_before": 0, "blank_after": 0, "num": 0}
+
+
+def render_case(chains_d, style_d=None):
+    return render([chain_from_dict(c) for c in chains_d], **style_from_dict(style_d or PLAIN))
+
+
+def recompute_ends(d):
+    """after editing blocks of a chain dict: make the header ends match the records again"""
+    c = chain_from_dict(d)
+    d["ref"][4] = d["ref"][3] + c.ref_extent()
+    d["qry"][4] = d["qry"][3] + c.qry_extent()
+    d["ref"][1] = max(d["ref"][1], d["ref"][4])
+    d["qry"][1] = max(d["qry"][1], d["qry"][4])
+
+
+def shrink_chains(chains_d):
+    """smaller well-formed variants of a list of chain dicts"""
+    import copy as _c
+    n = len(chains_d)
+    for i in range(n):
+        if n > 1:
+            yield chains_d[:i] + chains_d[i + 1:]
+    for i in range(n):
+        nb = len(chains_d[i]["blocks"])
+        for j in range(nb):
+            if nb > 1:
+                cs = _c.deepcopy(chains_d)
+                del cs[i]["blocks"][j]
+                recompute_ends(cs[i])
+                yield cs
+        for j in range(nb):
+            for f in (0, 1, 2):
+                v = chains_d[i]["blocks"][j][f]
+                for nv in ([0, v // 2] if f else [1, v // 2]):
+                    if nv < v and (f or nv >= 0):
+                        cs = _c.deepcopy(chains_d)
+                        cs[i]["blocks"][j][f] = nv
+                        recompute_ends(cs[i])
+                        yield cs
+        for side in ("ref", "qry"):
+            if chains_d[i][side][3] > 0:
+                cs = _c.deepcopy(chains_d)
+                d = cs[i][side][3]
+                cs[i][side][3] = 0
+                cs[i][side][4] -= d
+                yield cs
+
+
+def names_sizes(chains_d, side):
+    out = {}
+    for c in chains_d:
+        out.setdefault(c[side][0], set()).add(c[side][1])
     return out
